@@ -343,6 +343,10 @@ class IRExec:
                 return z3.BoolVal(True)
             if pred == "false":
                 return z3.BoolVal(False)
+            if pred == "ord":     # "neither operand is a NaN": reals have no NaN (DESIGN 2.6: floats are not modelled)
+                return z3.BoolVal(True)
+            if pred == "uno":
+                return z3.BoolVal(False)
             if pred not in table:
                 raise Unsupported(f"fcmp {pred}")
             return c.rel(table[pred], a, b)
